@@ -185,7 +185,7 @@ def run_case(case, ctx):
             ok, full = core.call(obs, 'add_signal_unbounded', inject, stg, tw, ax, inj, False)
             if ok:
                 full = np.asarray(full, dtype=float)
-                tol = S.tolerance(ax, inj['sig'])
+                tol = S.tolerance(ax, inj['sig'], n_smear=inj['opts']['smearing_subsamples'] if inj['opts']['doppler_smearing'] else 0)
                 if inj['sig']['f']['kind'] == 'box' and inj['opts']['integrate_f_profile']:
                     # a sub-sample sitting on a box edge may fall on either side: one sub-sample per edge
                     tol += 2.0 * S.amplitude_bound(ax, inj['sig']) / inj['opts']['f_subsamples']
